@@ -29,7 +29,16 @@ REQUIRED_COUNTERS = ['chk:mef', 'chk:refusal', 'chk:form']
 def curves(rng, k):
     out = []
     for i in range(k):
-        if rng.random() < 0.5:
+        r = rng.random()
+        if r < 0.12:
+            a = float(i + 2)
+            f = (lambda a: (lambda x: a * x ** 2))(a)            # even: -inf -> +inf, negative events change sign
+            f.desc = ('square', a)
+        elif r < 0.24:
+            a = float(1000 * (i + 1))
+            f = (lambda a: (lambda x: a / (1.0 + np.abs(x))))(a)  # saturating: +/-inf -> 0
+            f.desc = ('saturating', a)
+        elif r < 0.5:
             a, c = float(i + 2), float(100 * (i + 1))
             f = (lambda a, c: (lambda x: a * x + c))(a, c)
             f.desc = ('affine', a, c)
@@ -73,6 +82,10 @@ def run(ctx):
             s = zoo.write_and_load(F, zoo.float_spec(rng, n=N, d=D), path)
         else:
             s = rng.integers(0, 1024, size=(N, D)).astype(float)
+            if N and rng.random() < 0.4:
+                # special values among the events: each is converted by its channel's curve like any other value
+                for _ in range(int(rng.integers(1, 5))):
+                    s[int(rng.integers(N)), int(rng.integers(D))] = [np.nan, np.inf, -np.inf, -7.5][int(rng.integers(4))]
         if kind == 0 and rng.random() < 0.5:
             s = F.transform.to_rfi(s)
         k = int(rng.integers(1, min(D, 4) + 1))
